@@ -602,6 +602,57 @@ func ruleSchema(r *Run) {
 			}
 		}
 	}
+	// While reading, an attribute field is only ever filled from its own attribute: a helper the
+	// reader calls must not rewrite it from a sibling field ("normalising" w and h on open changes
+	// what the writer wrote, and the next save writes something else again).
+	if root := p.Func(pkgDoc, "(*Document).parseDocument"); root != nil {
+		for _, g := range sortedFuncs(p.staticReach(root)) {
+			if g.Pkg == nil || g.Pkg.Pkg.Path() != pkgDoc {
+				continue
+			}
+			allInstrs(g, func(in ssa.Instruction) {
+				st, ok := in.(*ssa.Store)
+				if !ok {
+					return
+				}
+				fa, ok := st.Addr.(*ssa.FieldAddr)
+				if !ok {
+					return
+				}
+				fv, _ := fieldOfAddr(fa)
+				owner := fieldOwner(p, fv)
+				if fv == nil || owner == nil {
+					return
+				}
+				isAttr := false
+				for _, sf := range ws.Fields[owner] {
+					if sf.Var == fv && sf.Tag.Attr {
+						isAttr = true
+					}
+				}
+				if !isAttr {
+					return
+				}
+				// value loaded from another field of the same struct type
+				var src *types.Var
+				switch x := st.Val.(type) {
+				case *ssa.UnOp:
+					if x.Op == token.MUL {
+						if fa2, ok := x.X.(*ssa.FieldAddr); ok {
+							src, _ = fieldOfAddr(fa2)
+						}
+					}
+				case *ssa.Field:
+					src, _ = fieldOfVal(x)
+				}
+				if src == nil || src == fv || fieldOwner(p, src) != owner {
+					return
+				}
+				r.Check("schema-attr", owner.Obj().Name()+"."+fv.Name()+":cross-store:"+shortName(topLevel(g)), st.Pos(), false,
+					fmt.Sprintf("while a document is opened, %s stores the value of %s.%s into the attribute field %s.%s: what was read from the file is replaced by something the reader made up from another attribute", shortName(topLevel(g)), owner.Obj().Name(), src.Name(), owner.Obj().Name(), fv.Name()))
+			})
+		}
+	}
 	r.Min("element_field_obligations", nElem, 60)
 	r.Min("attribute_field_obligations", nAttr, 100)
 	r.Count("subsumed_obligations", nSub)
